@@ -340,6 +340,56 @@ def fix3(run):
     run.floor(R, "`resolved = true` sites", n, 6)
 
 
+def flag_param_index(prog, g, field, depth=0):
+    """index (0-based) of the bool parameter of g that ends up in a field named `field` (directly, or through one callee
+    that stores its own parameter there): how the passes' strictness flags are recognised without relying on their names"""
+    from rules_tab import value_depends_on
+    if g is None or depth > 2:
+        return None
+    bools = [i for i in range(1, g.arg_count + 1) if g.local_ty(i) == "bool"]
+    hits = set()
+    for bi, si, st in g.stmts():
+        if st["k"] != "assign":
+            continue
+        targets = []
+        pl = st["place"]
+        fl = [pr["name"] for pr in pl["p"] if isinstance(pr, dict) and "f" in pr]
+        if fl and fl[-1] == field and st["rv"]["k"] == "use":
+            targets.append(st["rv"]["op"])
+        rv = st["rv"]
+        if rv["k"] == "agg" and rv.get("agg") == "adt" and field in (rv.get("fields") or []):
+            targets.append(rv["ops"][rv["fields"].index(field)])
+        for o in targets:
+            for i in bools:
+                if value_depends_on(g, o, i):
+                    hits.add(i - 1)
+            # `a && b` is lowered to a temporary assigned on the two edges of a switch on `a`: control dependence
+            l = op_local(o)
+            if l is not None:
+                root = g.copy_root(l)
+                for dd in g.full_defs(root):
+                    for sb in g.dominators().get(dd[1], ()):
+                        tt = g.blocks[sb]["term"]
+                        if tt["k"] == "switch" and op_local(tt["discr"]) is not None:
+                            r_ = g.copy_root(op_local(tt["discr"]))
+                            if r_ in bools and any(g.edge_dominates(sb, e, dd[1]) for e in g.succs(sb)):
+                                hits.add(r_ - 1)
+    if len(hits) == 1:
+        return sorted(hits)[0]
+    if hits:
+        return None
+    for bi, t in g.calls():
+        h = prog.fn(t.get("resolved") or "")
+        if h is None or h.id == g.id:
+            continue
+        j = flag_param_index(prog, h, field, depth + 1)
+        if j is not None and j < len(t["args"]):
+            l = op_local(t["args"][j])
+            if l is not None and 1 <= g.copy_root(l) <= g.arg_count and g.local_ty(g.copy_root(l)) == "bool":
+                hits.add(g.copy_root(l) - 1)
+    return sorted(hits)[0] if len(hits) == 1 else None
+
+
 def fix1(run):
     """every delivered result is dominated by a confirming last pass and its success test"""
     R = "FIX1"
@@ -355,11 +405,7 @@ def fix1(run):
                   "%s calls %s at %d sites (loop pass + confirming pass)" % (f.id, d["once"], len(once)),
                   "%s calls %s at %d site(s); expected the loop pass and the separate confirming pass" % (f.id, d["once"], len(once)))
         g = prog.fn(d["once"])
-        last_idx = None
-        if g is not None:
-            for i in range(1, g.arg_count + 1):
-                if g.local_name(i) == "is_last_iteration":
-                    last_idx = i - 1
+        last_idx = flag_param_index(prog, g, "is_last_iteration")
         if last_idx is None:
             run.violation(R, "%s|%s|last-param" % (R, f.id), f.loc(), "mechanism not found: parameter is_last_iteration of %s" % d["once"])
             continue
@@ -386,7 +432,7 @@ def fix1(run):
                 elif ci is None:
                     al = op_local(a)
                     root = f.copy_root(al) if al is not None else None
-                    if root is not None and f.local_name(root) == "is_last_iteration":
+                    if root is not None:
                         # the return must be behind the true edge of a test of that flag
                         for (sb, false_t, true_t) in switch_on_local(f, root):
                             if f.edge_dominates(sb, true_t, bi):
@@ -487,7 +533,13 @@ def fix4(run):
         if f is None:
             continue
         # counter: named iter_count; all assignments are `0` or `iter_count + 1` behind `iter_count < max`
-        cnt = [l for l in range(len(f.locals)) if f.local_name(l) == "iter_count"]
+        # the counter is the local compared with the budget (`counter < max_iterations`)
+        cnt = set()
+        for bi, si, st in f.stmts():
+            if st["k"] == "assign" and st["rv"]["k"] == "binop" and st["rv"]["op"] == "Lt" and op_local(st["rv"]["l"]) is not None:
+                if re.search(r"max_iterations$", describe_origin(f, f.origin_op(st["rv"]["r"]))):
+                    cnt.add(f.copy_root(op_local(st["rv"]["l"])))
+        cnt = sorted(cnt)
         if len(cnt) != 1:
             run.violation(R, "%s|%s|counter" % (R, f.id), f.loc(), "mechanism not found: loop counter `iter_count` in %s" % f.id)
             continue
@@ -530,8 +582,16 @@ def fix4(run):
         run.check(ok, R, "%s|%s|counter" % (R, f.id), f.loc(), "%s: iter_count starts at 0 and is only incremented by 1 behind `iter_count < max_iterations`" % f.id,
                   "%s: the pass counter is not bounded by the budget (%s)" % (f.id, why))
         # flags
+        g_once = prog.fn(d["once"])
         for nm, want in (("is_first_iteration", ("Eq", 1)), ("is_last_iteration", ("Eq", "max"))):
-            ls = [l for l in range(len(f.locals)) if f.local_name(l) == nm]
+            # the flag is what the loop pass hands to the pass function in the position of that flag
+            ls = set()
+            j = flag_param_index(prog, g_once, nm)
+            if j is not None:
+                for bi, t in f.calls():
+                    if (t.get("resolved") or "") == d["once"] and j < len(t["args"]) and const_int(t["args"][j]) is None and op_local(t["args"][j]) is not None:
+                        ls.add(f.copy_root(op_local(t["args"][j])))
+            ls = sorted(ls)
             good = False
             if len(ls) == 1 and len(f.full_defs(ls[0])) == 1 and f.full_defs(ls[0])[0][0] == "stmt":
                 rv = f.full_defs(ls[0])[0][3]["rv"]
@@ -559,10 +619,10 @@ def fix4(run):
         # the confirming pass is (first=false, last=true)
         g = prog.fn(d["once"])
         if g is not None:
-            idx = {g.local_name(i): i - 1 for i in range(1, g.arg_count + 1)}
+            idx = {"is_first_iteration": flag_param_index(prog, g, "is_first_iteration"), "is_last_iteration": flag_param_index(prog, g, "is_last_iteration")}
             consts = []
             for bi, t in f.calls():
-                if (t.get("resolved") or "") == d["once"]:
+                if (t.get("resolved") or "") == d["once"] and None not in idx.values():
                     consts.append((const_int(t["args"][idx["is_first_iteration"]]), const_int(t["args"][idx["is_last_iteration"]])))
             run.check((0, 1) in consts, R, "%s|%s|confirming-flags" % (R, f.id), f.loc(),
                       "%s: the confirming pass runs with (is_first=false, is_last=true)" % f.id,
